@@ -1,12 +1,16 @@
 CONSTANTS
   NKeys = @NKEYS@
-  Th = @TH@
+  NRules = @NRULES@
+  Th1 = @TH@
+  Th2 = @TH2@
+  Act1 = "@ACT1@"
+  Act2 = "@ACT2@"
   P = @P@
   J = @J@
   S = @S@
   MaxT = @MAXT@
   MaxArr = @MAXARR@
 SPECIFICATION Spec
-INVARIANTS VerdictOK
+INVARIANTS VerdictOK SeenOK
 PROPERTIES OthersUntouched
 CHECK_DEADLOCK FALSE
